@@ -122,13 +122,6 @@ partial def twalkL (T : Tables) (seen : List Nat) : List Tree → St × Obs → 
     | .ok s1 => twalkL T (match r with | some x => x :: seen | none => seen) ts s1
 end
 
-/-- the text of every oC_IntegerLiteral node of the tree -/
-partial def intTexts : Tree → List String
-  | .node r kids =>
-    if ruleName r == "oC_IntegerLiteral" then [String.join (kids.map (fun k => match k with | .leaf s => leafText s | .err s => leafText s | _ => ""))]
-    else kids.flatMap intTexts
-  | _ => []
-
 def field (toks : List Sexp) (name : String) : Nat :=
   (toks.findSome? (fun s => match s with
     | .atom a => if a.startsWith (name ++ "=") then (a.drop (name.length + 1)).toString.toNat? else none
@@ -187,7 +180,7 @@ def step (_ : Unit) (ts : List String) : Unit × String :=
         let pden := match T.pwalk PT T.root t { len := 0, idx := 0 } with | .error _ => true | .ok _ => false
         let ppanic' := ppanic || mis > 0
         -- integer literals the visitors cannot read (ParseInt base 10, 64 bit): one recorded error each, whatever the implementation reports
-        let badInts := (intTexts t).filter (fun s => !(intLiteralInRange s)) |>.length
+        let badInts := intLiteralErrors (Dawgs.Generated.Grammar.ruleNames.idxOf "oC_IntegerLiteral") t
         let nerrs := nsyn + nother + nunsup.length + badInts
         let derrs := dsyn + dother + dunsup.length + dfilt + badInts
         let (trace, empties, why) := match tr with
